@@ -58,20 +58,20 @@ type Run struct {
 	Deadline time.Time
 	Job      string
 
-	States        int            `json:"states"`
-	Transitions   int            `json:"transitions"`
-	Evaluations   int            `json:"evaluations"`
-	PathsReplayed int            `json:"paths_replayed"`
-	Classes       map[string]int `json:"classes"`
+	States        int                 `json:"states"`
+	Transitions   int                 `json:"transitions"`
+	Evaluations   int                 `json:"evaluations"`
+	PathsReplayed int                 `json:"paths_replayed"`
+	Classes       map[string]int      `json:"classes"`
 	DistinctKeys  map[string]struct{} `json:"-"`
-	Samples       []any             `json:"samples"`
-	Violations    []Violation       `json:"violations"`
-	Truncated     []string          `json:"truncated"` // reasons the run is not exhaustive
-	Bounds        map[string]any    `json:"bounds"`
-	Notes         []string          `json:"notes"`
-	JobsRun       []string          `json:"jobs_run"`
-	HarnessErrors []string          `json:"harness_errors"`
-	Extra         map[string]any    `json:"extra"`
+	Samples       []any               `json:"samples"`
+	Violations    []Violation         `json:"violations"`
+	Truncated     []string            `json:"truncated"` // reasons the run is not exhaustive
+	Bounds        map[string]any      `json:"bounds"`
+	Notes         []string            `json:"notes"`
+	JobsRun       []string            `json:"jobs_run"`
+	HarnessErrors []string            `json:"harness_errors"`
+	Extra         map[string]any      `json:"extra"`
 	violSeen      map[string]int
 	violTotal     int
 	sampleSeen    map[string]int
@@ -177,8 +177,8 @@ func (n *Node) Key() string {
 }
 
 type BFS struct {
-	Scn      Scenario
-	MaxDepth int
+	Scn       Scenario
+	MaxDepth  int
 	MaxStates int
 	// Init prepares the root node (model, env) from the freshly built world.
 	Init func(r *Run, w *World, root *Node)
